@@ -8,10 +8,12 @@ import (
 	"runtime"
 	"sort"
 	"sync"
+	"sync/atomic"
 	"testing"
 	"time"
 
 	"github.com/gotid/god/internal/verifdrv"
+	"github.com/gotid/god/lib/threading"
 	"github.com/gotid/god/lib/timex"
 )
 
@@ -21,30 +23,6 @@ import (
 type verifPair struct {
 	K string `json:"k"`
 	V int    `json:"v"`
-}
-
-type verifRec struct {
-	mu    sync.Mutex
-	pairs []verifPair
-}
-
-func (r *verifRec) add(k, v any) {
-	ks, _ := k.(string)
-	vi, _ := v.(int)
-	r.mu.Lock()
-	r.pairs = append(r.pairs, verifPair{ks, vi})
-	r.mu.Unlock()
-}
-
-func (r *verifRec) take() []verifPair {
-	r.mu.Lock()
-	out := r.pairs
-	r.pairs = nil
-	r.mu.Unlock()
-	if out == nil {
-		out = []verifPair{}
-	}
-	return out
 }
 
 func verifErrCode(err error) int {
@@ -96,7 +74,9 @@ func verifTickConsumed(tk timex.FakeTicker) bool {
 const verifBarrierKey = "\x00verif-barrier"
 
 type verifWheelCall struct {
-	Op    string  `json:"op"` // set | move | remove | tick | drain | stop
+	// set | move | remove | tick | drain | stop, and the driver's gates:
+	// hold (the next execute callback for key blocks) | release (key) | holddrain | releasedrain
+	Op    string  `json:"op"`
 	Key   *string `json:"key"`
 	Val   int     `json:"val"`
 	Delay int64   `json:"delay"` // nanoseconds
@@ -121,14 +101,121 @@ func verifKey(k *string) any {
 	return *k
 }
 
+type verifEvent struct {
+	pair verifPair
+	call int
+}
+
+// verifGates records the callbacks and lets the case hold some of them. A callback batch (one
+// goroutine of runTasks / GoSafe) is attributed to the call during which its first callback
+// started; a drained pair to the latest Drain call. Nothing here knows what should happen.
+type verifGates struct {
+	mu        sync.Mutex
+	cur       int            // index of the call being processed
+	lastDrain int            // index of the latest Drain call
+	batch     map[uint64]int // goroutine id -> call of its first callback
+	fired     []verifEvent
+	drained   []verifEvent
+	armed     map[string]chan struct{} // hold: key -> gate not yet reached
+	holding   map[string]chan struct{} // gates a callback is blocked on
+	drainGate chan struct{}
+	blocked   int32 // callbacks currently blocked on a gate
+	pump      int32 // tick deliveries in flight (run loop busy inside drainAll)
+}
+
+func (g *verifGates) exec(k, v any) {
+	ks, _ := k.(string)
+	vi, _ := v.(int)
+	gid := threading.RoutineId()
+	g.mu.Lock()
+	c, ok := g.batch[gid]
+	if !ok {
+		c = g.cur
+		g.batch[gid] = c
+	}
+	g.fired = append(g.fired, verifEvent{verifPair{ks, vi}, c})
+	gate := g.armed[ks]
+	if gate != nil {
+		delete(g.armed, ks)
+		g.holding[ks] = gate
+		atomic.AddInt32(&g.blocked, 1)
+	}
+	g.mu.Unlock()
+	if gate != nil {
+		<-gate
+		atomic.AddInt32(&g.blocked, -1)
+	}
+}
+
+func (g *verifGates) drain(k, v any) {
+	ks, _ := k.(string)
+	vi, _ := v.(int)
+	g.mu.Lock()
+	g.drained = append(g.drained, verifEvent{verifPair{ks, vi}, g.lastDrain})
+	gate := g.drainGate
+	if gate != nil {
+		atomic.AddInt32(&g.blocked, 1)
+	}
+	g.mu.Unlock()
+	if gate != nil {
+		<-gate
+		atomic.AddInt32(&g.blocked, -1)
+	}
+}
+
+func (g *verifGates) release(key string) {
+	g.mu.Lock()
+	gate := g.holding[key]
+	delete(g.holding, key)
+	if gate == nil {
+		gate = g.armed[key]
+		delete(g.armed, key)
+	}
+	g.mu.Unlock()
+	if gate != nil {
+		close(gate)
+	}
+}
+
+func (g *verifGates) releaseDrain() {
+	g.mu.Lock()
+	gate := g.drainGate
+	g.drainGate = nil
+	g.mu.Unlock()
+	if gate != nil {
+		close(gate)
+	}
+}
+
+func (g *verifGates) extra() int {
+	return int(atomic.LoadInt32(&g.blocked)) + int(atomic.LoadInt32(&g.pump))
+}
+
+// verifSettleGates: like verifSettle, with the callbacks blocked on gates (and tick deliveries
+// waiting for a busy run loop) allowed to stay.
+func verifSettleGates(base int, g *verifGates) bool {
+	deadline := time.Now().Add(3 * time.Second)
+	for i := 0; runtime.NumGoroutine() > base+g.extra(); i++ {
+		if i < 200 {
+			runtime.Gosched()
+			continue
+		}
+		if time.Now().After(deadline) {
+			return false
+		}
+		time.Sleep(50 * time.Microsecond)
+	}
+	return true
+}
+
 func verifWheel(raw json.RawMessage) any {
 	var c verifWheelCase
 	if err := json.Unmarshal(raw, &c); err != nil {
 		return map[string]any{"error": err.Error()}
 	}
-	fired, drained := &verifRec{}, &verifRec{}
+	g := &verifGates{batch: map[uint64]int{}, armed: map[string]chan struct{}{}, holding: map[string]chan struct{}{}, lastDrain: -1}
 	if c.Interval <= 0 || c.Slots <= 0 {
-		w, err := NewTimingWheel(time.Duration(c.Interval), c.Slots, fired.add)
+		w, err := NewTimingWheel(time.Duration(c.Interval), c.Slots, g.exec)
 		if err == nil {
 			w.Stop()
 		}
@@ -137,29 +224,58 @@ func verifWheel(raw json.RawMessage) any {
 
 	base0 := runtime.NumGoroutine()
 	ticker := timex.NewFakeTicker()
-	w, err := newTimingWheelWithClock(time.Duration(c.Interval), c.Slots, fired.add, ticker)
+	w, err := newTimingWheelWithClock(time.Duration(c.Interval), c.Slots, g.exec, ticker)
 	if err != nil {
 		return map[string]any{"new_ok": false, "obs": []verifWheelObs{}, "timeouts": 0}
 	}
 	base := base0 + 1
 	stopped := false
+	drainHeld := false // Drain issued while the drain gate is armed: the run loop may be busy
 	timeouts := 0
 	// a further synchronous send: once it is accepted the loop has finished the previous handler
 	barrier := func() { _ = w.MoveTimer(verifBarrierKey, time.Duration(c.Interval)) }
-	obs := make([]verifWheelObs, 0, len(c.Calls))
-	for _, call := range c.Calls {
-		o := verifWheelObs{}
+	waitPump := func() {
+		deadline := time.Now().Add(3 * time.Second)
+		for atomic.LoadInt32(&g.pump) > 0 {
+			if time.Now().After(deadline) {
+				timeouts++
+				return
+			}
+			time.Sleep(20 * time.Microsecond)
+		}
+	}
+	errs := make([]int, len(c.Calls))
+	for idx, call := range c.Calls {
+		g.mu.Lock()
+		g.cur = idx
+		g.mu.Unlock()
+		e := 0
 		switch call.Op {
 		case "set":
-			o.Err = verifErrCode(w.SetTimer(verifKey(call.Key), call.Val, time.Duration(call.Delay)))
+			e = verifErrCode(w.SetTimer(verifKey(call.Key), call.Val, time.Duration(call.Delay)))
 		case "move":
-			o.Err = verifErrCode(w.MoveTimer(verifKey(call.Key), time.Duration(call.Delay)))
+			e = verifErrCode(w.MoveTimer(verifKey(call.Key), time.Duration(call.Delay)))
 		case "remove":
-			o.Err = verifErrCode(w.RemoveTimer(verifKey(call.Key)))
+			e = verifErrCode(w.RemoveTimer(verifKey(call.Key)))
 		case "drain":
-			o.Err = verifErrCode(w.Drain(drained.add))
+			g.mu.Lock()
+			g.lastDrain = idx
+			if g.drainGate != nil {
+				drainHeld = true
+			}
+			g.mu.Unlock()
+			e = verifErrCode(w.Drain(g.drain))
 		case "tick":
-			if !stopped { // a stopped ticker delivers nothing
+			if stopped { // a stopped ticker delivers nothing
+				break
+			}
+			if drainHeld { // the loop may sit inside drainAll: deliver without waiting for it
+				atomic.AddInt32(&g.pump, 1)
+				go func() {
+					ticker.Tick()
+					atomic.AddInt32(&g.pump, -1)
+				}()
+			} else {
 				ticker.Tick()
 				if !verifTickConsumed(ticker) {
 					timeouts++
@@ -167,35 +283,105 @@ func verifWheel(raw json.RawMessage) any {
 			}
 		case "stop":
 			if panicked, _ := verifdrv.Catch(w.Stop); panicked {
-				o.Err = 3
+				e = 3
 			} else {
 				<-ticker.Chan() // closed by the run loop on exit
 				stopped = true
 				base = base0
 			}
+		case "hold":
+			if call.Key != nil {
+				g.mu.Lock()
+				g.armed[*call.Key] = make(chan struct{})
+				g.mu.Unlock()
+			}
+		case "release":
+			if call.Key != nil {
+				g.release(*call.Key)
+			}
+		case "holddrain":
+			g.mu.Lock()
+			g.drainGate = make(chan struct{})
+			g.mu.Unlock()
+		case "releasedrain":
+			g.releaseDrain()
+			if drainHeld {
+				waitPump()
+				if !stopped && !verifTickConsumed(ticker) {
+					timeouts++
+				}
+				drainHeld = false
+			}
 		}
-		if o.Err == 0 {
+		errs[idx] = e
+		if e == 0 && !drainHeld {
 			barrier()
 		}
-		if !verifSettle(base) {
+		if !verifSettleGates(base, g) {
 			timeouts++
 		}
-		o.Fired = fired.take()
-		o.Drained = drained.take()
-		sort.Slice(o.Drained, func(i, j int) bool {
-			if o.Drained[i].K != o.Drained[j].K {
-				return o.Drained[i].K < o.Drained[j].K
-			}
-			return o.Drained[i].V < o.Drained[j].V
-		})
-		obs = append(obs, o)
+	}
+	// open every gate that is still closed and let everything finish
+	g.mu.Lock()
+	g.cur = len(c.Calls)
+	var keys []string
+	for k := range g.holding {
+		keys = append(keys, k)
+	}
+	for k := range g.armed {
+		keys = append(keys, k)
+	}
+	g.mu.Unlock()
+	for _, k := range keys {
+		g.release(k)
+	}
+	g.releaseDrain()
+	waitPump()
+	if !stopped {
+		if !verifTickConsumed(ticker) {
+			timeouts++
+		}
+		barrier()
+	}
+	if !verifSettleGates(base, g) {
+		timeouts++
 	}
 	if !stopped {
 		w.Stop()
 		<-ticker.Chan()
 		verifSettle(base0)
 	}
-	return map[string]any{"new_ok": true, "obs": obs, "timeouts": timeouts}
+	obs := make([]verifWheelObs, len(c.Calls))
+	for i := range obs {
+		obs[i] = verifWheelObs{Err: errs[i], Fired: []verifPair{}, Drained: []verifPair{}}
+	}
+	late := 0
+	g.mu.Lock()
+	for _, ev := range g.fired {
+		if ev.call < len(obs) {
+			obs[ev.call].Fired = append(obs[ev.call].Fired, ev.pair)
+		} else {
+			late++
+		}
+	}
+	for _, ev := range g.drained {
+		if ev.call >= 0 && ev.call < len(obs) {
+			obs[ev.call].Drained = append(obs[ev.call].Drained, ev.pair)
+		} else {
+			late++
+		}
+	}
+	g.mu.Unlock()
+	for i := range obs {
+		d := obs[i].Drained
+		sort.Slice(d, func(a, b int) bool {
+			if d[a].K != d[b].K {
+				return d[a].K < d[b].K
+			}
+			return d[a].V < d[b].V
+		})
+	}
+	return map[string]any{"new_ok": true, "obs": obs, "timeouts": timeouts, "late": late}
 }
 
 func TestVerifDriver(t *testing.T) {
@@ -207,6 +393,8 @@ func TestVerifDriver(t *testing.T) {
 		switch head.Kind {
 		case "cache":
 			return verifCache(raw)
+		case "jitter":
+			return verifJitter(raw)
 		case "safemap":
 			return verifSafeMap(raw)
 		default:
